@@ -142,7 +142,7 @@ def has_value(T):
     if isinstance(T, Enum):
         return all(t is None or has_value(t) for _, t, _ in T.variants)
     if isinstance(T, Opt):
-        return has_value(T.sub)
+        return not isinstance(T.sub, Opt) and has_value(T.sub)
     if isinstance(T, ErrU):
         return has_value(T.sub) and has_value(T.err)
     return True
@@ -161,7 +161,14 @@ def universe():
              Opt(Ptr(tyir.I32, False)), Opt(Ptr(M5, True)), Arr(2, Ptr(tyir.I32, False)), Arr(0, tyir.I32), Arr(1, M5),
              Struct("SP", [("p", Ptr(tyir.U8, False)), ("o", Opt(Ptr(tyir.U8, False))), ("s", Slice(tyir.U8)), ("t", Named("type", 4, 4))]),
              Struct("SE", [("e", E2), ("x", tyir.U16), ("f", E2)])]
-    return tys + extra
+    # sum types nested in sum types, reflected *before* their inner types (they come first, and their inner types occur
+    # nowhere else): the tables of reflection data are indexed by registration order
+    PO = Struct("PO", [("a", Opt(tyir.F64)), ("b", Opt(tyir.I16))])
+    EO = Enum("EO", [("A", Opt(tyir.U16), None), ("B", None, None)])
+    ErrX = Enum("ErrX", [("X", tyir.U32, None)])
+    first = [Opt(Opt(tyir.F32)), Opt(PO), Opt(Arr(2, Opt(tyir.I8))), Opt(EO), ErrU(ErrX, Opt(tyir.U32)), Arr(2, Opt(Opt(tyir.I16))),
+             Opt(ErrU(ErrX, tyir.I64)), Struct("PP", [("p", Opt(Opt(tyir.BOOL))), ("q", tyir.U8)])]
+    return first + tys + extra
 
 
 def info_code(T, fresh):
